@@ -10,6 +10,7 @@ import (
 	"time"
 
 	"github.com/scionproto/scion/pkg/addr"
+	"github.com/scionproto/scion/pkg/scrypto/cms/protocol"
 	"github.com/scionproto/scion/pkg/scrypto/cppki"
 	"github.com/scionproto/scion/pkg/scrypto/signed"
 	"github.com/scionproto/scion/private/storage/db"
@@ -28,7 +29,10 @@ import (
 type World struct {
 	Base  time.Time
 	P     *pki.PKI
-	CW    *pki.ChainWorld
+	Root  *pki.Cert
+	CA    *pki.Cert
+	tag   string
+	built map[int]*pki.Cert
 	DB    sqlite.DB
 	TRCID cppki.TRCID
 	ids   map[string]int
@@ -55,21 +59,25 @@ func (fixedRouter) ChooseServer(context.Context, addr.ISD) (net.Addr, error) {
 
 const far = 400 * 24 * 3600 // seconds
 
+// asIA is the ISD-AS of abstract AS a (ISD 1; independent of the seed).
+func asIA(a int) addr.IA { return addr.MustIAFrom(1, addr.AS(0xff0000000110+uint64(a)-1)) }
+
 // NewWorld creates the PKI; base is abstract time 0.
 func NewWorld(base time.Time) *World {
-	w := &World{Base: base.UTC().Truncate(time.Second), P: pki.New(), ids: map[string]int{}, next: 10}
-	clk := pki.Clock{Base: w.Base, Unit: time.Second}
-	w.CW = pki.NewChainWorld(w.P, clk, []pki.AChainCert{
-		{ID: 1, Kind: "root", Signer: 1, NB: -far, NA: far, IA: 1},
-		{ID: 2, Kind: "ca", Signer: 1, NB: -far + 10, NA: far - 10, IA: 1},
-	}, fmt.Sprintf("segs%d", atomic.AddInt64(&worldSeq, 1)))
+	w := &World{Base: base.UTC().Truncate(time.Second), P: pki.New(), ids: map[string]int{}, next: 10,
+		built: map[int]*pki.Cert{}, tag: fmt.Sprintf("segs%d", atomic.AddInt64(&worldSeq, 1))}
+	core := asIA(1).String()
+	w.Root = w.P.Cert(pki.Spec{Kind: "root", CN: "root", IA: core, SN: 1001, NB: w.T(-far), NA: w.T(far),
+		KeyName: w.tag + "/root"})
+	w.CA = w.P.Cert(pki.Spec{Kind: "ca", CN: "ca", IA: core, SN: 1002, NB: w.T(-far + 10), NA: w.T(far - 10),
+		KeyName: w.tag + "/ca", Parent: w.Root})
 	name := fmt.Sprintf("file:verifsegs%d_%d", os.Getpid(), atomic.AddInt64(&worldSeq, 1))
 	d, err := sqlite.New(name, &db.SqliteConfig{InMemory: true})
 	if err != nil {
 		vt.Fatal("sqlite: %v", err)
 	}
 	w.DB = d
-	t := w.CW.TRC(pki.ATRC{Serial: 1, Base: 1, NB: -19000, NA: 19000, Roots: []int{1}}) // bounded by the voters of pki.ChainWorld
+	t := w.baseTRC()
 	if err := t.Verify(nil); err != nil {
 		vt.Fatal("generated base TRC does not verify: %v", err)
 	}
@@ -80,8 +88,40 @@ func NewWorld(base time.Time) *World {
 	return w
 }
 
+// baseTRC builds and signs the base TRC of ISD 1: two sensitive and two regular voting
+// certificates, the root certificate, quorum 2, valid for the same (long) period as the voters.
+func (w *World) baseTRC() cppki.SignedTRC {
+	core := asIA(1).String()
+	var voters []*pki.Cert
+	for i, kind := range []string{"sens", "sens", "reg", "reg"} {
+		voters = append(voters, w.P.Cert(pki.Spec{Kind: kind, CN: fmt.Sprintf("voter%d", i+1), IA: core,
+			SN: int64(i + 1), NB: w.T(-far), NA: w.T(far), KeyName: fmt.Sprintf("%s/voter/%d", w.tag, i+1)}))
+	}
+	t := cppki.TRC{Version: 1, ID: cppki.TRCID{ISD: 1, Base: 1, Serial: 1},
+		Validity:     cppki.Validity{NotBefore: w.T(-far + 100), NotAfter: w.T(far - 100)},
+		NoTrustReset: true, Quorum: 2, CoreASes: []addr.AS{asIA(1).AS()},
+		AuthoritativeASes: []addr.AS{asIA(1).AS()}, Description: "segs world"}
+	for _, v := range voters {
+		t.Certificates = append(t.Certificates, v.X)
+	}
+	t.Certificates = append(t.Certificates, w.Root.X)
+	raw, err := t.Encode()
+	if err != nil {
+		vt.Fatal("TRC does not encode: %v", err)
+	}
+	var sis []protocol.SignerInfo
+	for _, v := range voters {
+		sis = append(sis, pki.SignerInfo(raw, v.X, v.Key))
+	}
+	dec, err := cppki.DecodeSignedTRC(pki.CMS(raw, sis))
+	if err != nil {
+		vt.Fatal("TRC does not decode: %v", err)
+	}
+	return dec
+}
+
 // IA is the concrete ISD-AS of abstract AS a.
-func (w *World) IA(a int) addr.IA { return pki.ChainIA(a) }
+func (w *World) IA(a int) addr.IA { return asIA(a) }
 
 // T is the wall-clock instant of abstract second s.
 func (w *World) T(s int) time.Time { return w.Base.Add(time.Duration(s) * time.Second) }
@@ -95,14 +135,15 @@ func (w *World) ASCert(a, nb, na, k int) *pki.Cert {
 		id = w.next
 		w.next++
 		w.ids[key] = id
-		w.CW.Certs[id] = pki.AChainCert{ID: id, Kind: "as", Signer: 2, NB: nb, NA: na, IA: a}
-		c := w.CW.Cert(id)
-		chain := []*x509.Certificate{c.X, w.CW.Cert(2).X}
+		c := w.P.Cert(pki.Spec{Kind: "as", CN: "as", IA: asIA(a).String(), SN: int64(1000 + id), NB: w.T(nb),
+			NA: w.T(na), KeyName: fmt.Sprintf("%s/as/%d", w.tag, id), Ver: id, Parent: w.CA})
+		w.built[id] = c
+		chain := []*x509.Certificate{c.X, w.CA.X}
 		if _, err := w.DB.InsertChain(context.Background(), chain); err != nil {
 			vt.Fatal("insert chain: %v", err)
 		}
 	}
-	return w.CW.Cert(id)
+	return w.built[id]
 }
 
 // Signer builds the REAL trust.Signer for the certificate (as trust.SignerGen would).
@@ -119,7 +160,7 @@ func (w *World) SignerFor(ia addr.IA, c *pki.Cert) trust.Signer {
 		IA:            ia,
 		TRCID:         w.TRCID,
 		Subject:       c.X.Subject,
-		Chain:         []*x509.Certificate{c.X, w.CW.Cert(2).X},
+		Chain:         []*x509.Certificate{c.X, w.CA.X},
 		SubjectKeyID:  c.X.SubjectKeyId,
 		Expiration:    c.X.NotAfter,
 		ChainValidity: cppki.Validity{NotBefore: c.X.NotBefore, NotAfter: c.X.NotAfter},
